@@ -6,7 +6,10 @@ ROOT = os.path.dirname(os.path.dirname(os.path.abspath(__file__)))
 name, props = sys.argv[1], sys.argv[2:]
 d = os.path.join(ROOT, "seeded", name)
 assert subprocess.run(["git", "-C", "/repo", "status", "--porcelain", "--untracked-files=no"], capture_output=True, text=True).stdout.strip() == "", "/repo has local changes"
-if subprocess.run(["git", "-C", "/repo", "apply", os.path.join(d, "patch.diff")]).returncode != 0:
+# (a change written before a later fix:/hook commit touched the same lines is kept as written in patch.diff; the same
+#  change against the current HEAD is patch-rebased.diff)
+patch = os.path.join(d, "patch-rebased.diff") if os.path.exists(os.path.join(d, "patch-rebased.diff")) else os.path.join(d, "patch.diff")
+if subprocess.run(["git", "-C", "/repo", "apply", patch]).returncode != 0:
     sys.exit("patch does not apply to /repo HEAD")
 head = subprocess.run(["git", "-C", ROOT, "rev-parse", "--short", "HEAD"], capture_output=True, text=True).stdout.strip()
 res = []
